@@ -100,7 +100,6 @@ const prelude = `(define-fun tdiv ((a Int) (b Int)) Int (ite (>= a 0) (div a b) 
 (declare-fun u_shr (Int Int) Int)
 (declare-fun u_andnot (Int Int) Int)
 (declare-fun maplen (Int) Int)
-(declare-fun hash32 ((Seq Int)) (Seq Int))
 `
 
 // ---------------------------------------------------------------------------
